@@ -72,7 +72,10 @@ def run(chk: core.Check, replay=None) -> None:
         }
         if i % 3 == 2:
             variants.update({"step_eq_max_step": {"step_ft": ms}, "step_1p5_max_step": {"step_ft": 1.5 * ms},
-                             "step_below_max_step": {"step_ft": 0.75 * ms}})
+                             "step_below_max_step": {"step_ft": 0.75 * ms},
+                             # a time step shorter than one integration step (a row every iteration)
+                             "time_step_below_dt": {"time_step": 0.3 * (ms / 2.0) / p["mv_fps"]},
+                             "time_step_about_dt": {"time_step": 1.7 * (ms / 2.0) / p["mv_fps"], "extra": True}})
         for vname, over in variants.items():
             sc2 = copy.deepcopy(base)
             sc2.update(over)
@@ -123,7 +126,7 @@ def run(chk: core.Check, replay=None) -> None:
     loopsuite.validate(chk, "C11", outs, pairs)
     chk.sample({"base": outs[0]["sc"], "variant": outs[1]["sc"], "pair_lines": pairs[:2]})
     chk.sample({"tlc_behaviour": {k: v for k, v in behs[0].items() if k != "consts"}})
-    chk.require_strata(["variant_step_below_max_step", "variant_step_eq_max_step", "variant_shorter", "variant_coarser", "variant_finer", "variant_extra", "variant_timed", "extra_added_event_rows"])
+    chk.require_strata(["variant_time_step_below_dt", "variant_step_below_max_step", "variant_step_eq_max_step", "variant_shorter", "variant_coarser", "variant_finer", "variant_extra", "variant_timed", "extra_added_event_rows"])
     chk.exhaustive = False
     chk.rule.append("design: Integrator.tla twin recorders (rows lie on the polyline of iteration points that no recorder influences); "
                     "spec->code: row emission rule of TLC behaviours on the real filter; code->spec: seeded real shots, each fired with "
